@@ -65,6 +65,7 @@ type Contract struct {
 	Trusted  bool
 	Pure     bool
 	Opaque   bool // callers use the contract; body is not checked and not claimed
+	BodyOnly bool // the body is checked against the contract, but call sites ignore it (the callee keeps its noeffect.txt class): for safety-only contracts on widely used helpers
 	TrustFrame bool // the modifies clause is assumed for the body (e.g. writes through an interface-typed destination)
 	Cases    []string
 	NoWrite  []string // "nowrite T.f": the body contains no direct assignment to field f of struct type T (composite literals excepted)
@@ -110,7 +111,7 @@ type Lemma struct {
 var clauseKeywords = map[string]bool{
 	"func": true, "props": true, "safety": true, "requires": true, "ensures": true,
 	"modifies": true, "loop": true, "trusted": true, "pure": true, "opaque": true, "ghost": true,
-	"global": true, "lemma": true, "assumes": true, "import": true, "note": true, "cases": true, "end": true, "trustframe": true, "ensures-local": true, "defines": true, "precall": true, "closure": true, "iface": true, "init": true, "nowrite": true, "assume-pre": true, "stable": true,
+	"global": true, "lemma": true, "assumes": true, "import": true, "note": true, "cases": true, "end": true, "trustframe": true, "ensures-local": true, "defines": true, "precall": true, "closure": true, "iface": true, "init": true, "nowrite": true, "assume-pre": true, "stable": true, "bodyonly": true,
 }
 
 var funcKeyRe = regexp.MustCompile(`^(?:\(\s*\*?\s*(\w+)\s*\)\s*\.\s*(\w+)|(\w+)\s*\.\s*(\w+)|(\w+))`)
@@ -359,6 +360,8 @@ func parseSpecFile(path, relDir string) (*PkgSpec, error) {
 				cur.Pure = true
 			case "opaque":
 				cur.Opaque = true
+			case "bodyonly":
+				cur.BodyOnly = true
 			case "trustframe":
 				cur.TrustFrame = true
 			case "cases":
